@@ -214,6 +214,32 @@ func (g *gen) history(spec *Spec) {
 		}
 		ne = len(spec.Exprs)
 	}
+	if spec.MaxEvents > 0 && g.k.Chance(1, 2) {
+		// eviction soak: one probe program, then 70..140 programs that
+		// differ only in a picture / pattern parameter, then the probe again
+		// (and once more in between)
+		kind := g.w.Intn(4)
+		_, probe := work.Churn(kind, 0)
+		if len(spec.Docs) == 0 || spec.Docs[len(spec.Docs)-1].ID != "dc" {
+			spec.Docs = append(spec.Docs, DocSpec{ID: "dc", JSON: work.DocJSON(0, 0)})
+		}
+		spec.Exprs = append(spec.Exprs, ExprSpec{ID: "cprobe", Text: probe, Family: "churn", Exts: true})
+		n := g.w.Range(70, 140)
+		base := g.w.Intn(5000)
+		ops := []Op{{Kind: "eval", Expr: "cprobe", Doc: "dc"}}
+		for i := 0; i < n; i++ {
+			text, _ := work.Churn(kind, base+i)
+			id := fmt.Sprintf("ch%d", i)
+			ops = append(ops, Op{Kind: "compile", Expr: id, Text: text, Family: "churn", Exts: true}, Op{Kind: "eval", Expr: id, Doc: "dc"})
+			if i == n/2 || i == n-1 {
+				ops = append(ops, Op{Kind: "eval", Expr: "cprobe", Doc: "dc"})
+			}
+		}
+		// the first churn program again, after everything else
+		ops = append(ops, Op{Kind: "eval", Expr: "ch0", Doc: "dc"})
+		spec.Tasks = [][]Op{ops}
+		return
+	}
 	var ops []Op
 	priv := 0
 	for len(ops) < nops {
